@@ -152,3 +152,54 @@ def parabola(spec, x, gravity=G_STD):
     (px, py, pz), (vx, vy, vz) = initial_state(spec)
     t = (x - px) / vx
     return t, py + vy * t + 0.5 * gravity * t * t, pz + vz * t, vx, vy + gravity * t, vz
+
+
+def fly_until_limits(spec, density_mach, drag_by_mach, alt0_ft, v_min, max_drop, min_alt, h=1.0, gravity=G_STD,
+                     mv_fps=None, max_path=3.0e6):
+    """Coarse RK4 flight (ignoring any requested range) until one of the three limits is violated.
+    Returns (air-relative path length [ft], ground path length [ft], reason | None when max_path was exhausted)."""
+    segs = wind_segments(spec)
+    (px, py, pz), (vx, vy, vz) = initial_state(spec, mv_fps)
+    sqrt = math.sqrt
+    widx = 0
+    path_air = path_gnd = 0.0
+
+    def acc(y, ux, uy, uz, wx, wz):
+        dens, c = density_mach(alt0_ft + y)
+        ax, az = ux - wx, uz - wz
+        s = sqrt(ax * ax + uy * uy + az * az)
+        k = dens * s * drag_by_mach(s / c)
+        return -k * ax, -k * uy + gravity, -k * az
+
+    while path_air < max_path and path_gnd < max_path:
+        while widx < len(segs) and px >= segs[widx][0]:
+            widx += 1
+        wx, _, wz = segs[widx][1] if widx < len(segs) else (0.0, 0.0, 0.0)
+        ax, az = vx - wx, vz - wz
+        s_air = sqrt(ax * ax + vy * vy + az * az)
+        dt = h / max(1.0, s_air)
+        a1 = acc(py, vx, vy, vz, wx, wz)
+        hdt = 0.5 * dt
+        v2 = (vx + hdt * a1[0], vy + hdt * a1[1], vz + hdt * a1[2])
+        a2 = acc(py + hdt * vy, v2[0], v2[1], v2[2], wx, wz)
+        v3 = (vx + hdt * a2[0], vy + hdt * a2[1], vz + hdt * a2[2])
+        a3 = acc(py + hdt * v2[1], v3[0], v3[1], v3[2], wx, wz)
+        v4 = (vx + dt * a3[0], vy + dt * a3[1], vz + dt * a3[2])
+        a4 = acc(py + dt * v3[1], v4[0], v4[1], v4[2], wx, wz)
+        s6 = dt / 6.0
+        px += s6 * (vx + 2 * v2[0] + 2 * v3[0] + v4[0])
+        py += s6 * (vy + 2 * v2[1] + 2 * v3[1] + v4[1])
+        pz += s6 * (vz + 2 * v2[2] + 2 * v3[2] + v4[2])
+        vx += s6 * (a1[0] + 2 * a2[0] + 2 * a3[0] + a4[0])
+        vy += s6 * (a1[1] + 2 * a2[1] + 2 * a3[1] + a4[1])
+        vz += s6 * (a1[2] + 2 * a2[2] + 2 * a3[2] + a4[2])
+        sp = sqrt(vx * vx + vy * vy + vz * vz)
+        path_air += s_air * dt
+        path_gnd += sp * dt
+        if sp < v_min:
+            return path_air, path_gnd, "velocity"
+        if py < max_drop:
+            return path_air, path_gnd, "drop"
+        if alt0_ft + py < min_alt:
+            return path_air, path_gnd, "altitude"
+    return path_air, path_gnd, None
